@@ -338,7 +338,7 @@ pub fn run(run: &RunInfo) -> Summary {
         let other = "2AB4C0DE";
         let st = dbx::explore(0, 1_000_000, |ctx| {
             let first_done = ctx.any(3, "first-client-progress");
-            let (s2, t2) = [(other, SERIAL), (other, other), (SERIAL, other), (SERIAL, SERIAL), ("2ab4c0de", other)][ctx.any(5, "second-client")];
+            let (s2, t2) = [(other, SERIAL), (other, other), (SERIAL, other), (SERIAL, SERIAL), ("2ab4c0de", other), ("1E3C", SERIAL), ("17FD", SERIAL), ("", SERIAL), ("17FD1E3C00", SERIAL), ("7FD1E3C", SERIAL)][ctx.any(10, "second-client")];
             let sh: Sh = Rc::new(RefCell::new(std::mem::replace(ctx, Ctx::new(vec![], vec![], 0))));
             let mut results = vec![];
             let mut problems = vec![];
@@ -472,7 +472,7 @@ pub fn run(run: &RunInfo) -> Summary {
         transitions: acc.get("transitions"),
         traces_validated: execs,
         distinct_nontrivial: acc.set_len("outcomes"),
-        rule: format!("real Feig client against the simulated terminal (paused clock): 2 configurations (usual; no terminal id, other password and currency) x end-of-day completing or answered with the tolerated A0 x 7 scenarios (Feig::new, then read_card / begin / commit idle / cancel idle / commit and cancel with another transaction open / configure, then a further read_card) x every placement of <= {budget} fault(s): at every terminal-to-client packet (handshake included) one of close, close after half a packet, reset, undecodable body, foreign control field, NACK, silence, reply 1 ms after / 1 ms before the time-out, wrong serial, serial differing in case, identity check answered with an abort (four codes here, all 256 codes in a separate sweep); and the peer closing the idle connection before any operation; plus two clients in one process (the first at three stages of progress) x 5 pairs of configured / reported serial number of the second. Oracle on the global connection log (and, after every call, that no connection that saw a fault is still held)"),
+        rule: format!("real Feig client against the simulated terminal (paused clock): 2 configurations (usual; no terminal id, other password and currency) x end-of-day completing or answered with the tolerated A0 x 7 scenarios (Feig::new, then read_card / begin / commit idle / cancel idle / commit and cancel with another transaction open / configure, then a further read_card) x every placement of <= {budget} fault(s): at every terminal-to-client packet (handshake included) one of close, close after half a packet, reset, undecodable body, foreign control field, NACK, silence, reply 1 ms after / 1 ms before the time-out, wrong serial, serial differing in case, identity check answered with an abort (four codes here, all 256 codes in a separate sweep); and the peer closing the idle connection before any operation; plus two clients in one process (the first at three stages of progress) x 10 pairs of configured / reported serial number of the second (other, equal, equal up to case, and configured serials that are a proper suffix, prefix or extension of the reported one, or empty). Oracle on the global connection log (and, after every call, that no connection that saw a fault is still held)"),
         exhaustive: true,
         required_witnesses: vec![
             "a fault was followed by a fresh, vetted connection".into(),
